@@ -372,9 +372,12 @@ pub fn builtin_binary_shift<E: Effect>(
                     let bytes = binary_data.to_vec();
 
                     let shift_left = shift_amount > 0;
-                    let shift_bits = shift_amount.unsigned_abs() as u32;
+                    // Compare the full 64-bit magnitude with the bit length before narrowing:
+                    // `as u32` alone would turn a shift by 2^32 + k into a shift by k.
+                    let shift_magnitude = shift_amount.unsigned_abs();
+                    let shift_bits = shift_magnitude as u32;
 
-                    if shift_bits >= (bytes.len() as u32 * 8) {
+                    if shift_magnitude >= (bytes.len() as u64) * 8 {
                         // Shift larger than total bits results in zeros
                         let result = vec![0u8; bytes.len()];
                         let binary = executor.allocate_binary(result)?;
